@@ -311,7 +311,7 @@ where
         // the transaction lock. Together with contiguous finality, this prevents a candidate from
         // passing a rewind that invalidates it or an earlier transaction.
         #[cfg(feature = "verif")]
-        crate::verif::lock_point(crate::verif::pt::LOCK_TX_STATE, finality_idx, &self.tx_states[finality_idx]);
+        crate::verif::lock_point(crate::verif::pt::LOCK_TX_STATE_FINALITY, finality_idx, &self.tx_states[finality_idx]);
         let tx_state = self.tx_states[finality_idx].lock();
         if tx_state.status != TransactionStatus::Unconfirmed {
             return None;
@@ -570,7 +570,7 @@ where
     {
         let TxVersion { txid, incarnation } = tx_version.clone();
         #[cfg(feature = "verif")]
-        crate::verif::lock_point(crate::verif::pt::LOCK_TX_STATE, txid, &self.tx_states[txid]);
+        crate::verif::lock_point(crate::verif::pt::LOCK_TX_STATE_EXECUTE, txid, &self.tx_states[txid]);
         let mut tx_state = self.tx_states[txid].lock();
         // Cursor claims are advisory and may become stale after a rewind. The locked status and
         // incarnation are the authority for whether this task may execute.
@@ -759,7 +759,7 @@ where
         let txid = tx_version.txid;
         let incarnation = tx_version.incarnation;
         #[cfg(feature = "verif")]
-        crate::verif::lock_point(crate::verif::pt::LOCK_TX_STATE, txid, &self.tx_states[txid]);
+        crate::verif::lock_point(crate::verif::pt::LOCK_TX_STATE_VALIDATE, txid, &self.tx_states[txid]);
         let mut tx_state = self.tx_states[txid].lock();
         #[cfg(feature = "verif")]
         crate::verif::lock_point(crate::verif::pt::LOCK_TX_RESULT, txid, &self.tx_results[txid]);
@@ -900,7 +900,7 @@ where
 
     fn execution_task(&self, execute_id: TxId) -> Option<Task> {
         #[cfg(feature = "verif")]
-        crate::verif::lock_point(crate::verif::pt::LOCK_TX_STATE, execute_id, &self.tx_states[execute_id]);
+        crate::verif::lock_point(crate::verif::pt::LOCK_TX_STATE_EXECUTION_TASK, execute_id, &self.tx_states[execute_id]);
         let mut tx = self.tx_states[execute_id].lock();
         match tx.status {
             TransactionStatus::Initial | TransactionStatus::Conflict => {
@@ -934,7 +934,7 @@ where
                 self.scheduler_ctx.next_validation_idx(self.tx_dependency.index())
             {
                 #[cfg(feature = "verif")]
-                crate::verif::lock_point(crate::verif::pt::LOCK_TX_STATE, validation_idx, &self.tx_states[validation_idx]);
+                crate::verif::lock_point(crate::verif::pt::LOCK_TX_STATE_NEXT_VALIDATION, validation_idx, &self.tx_states[validation_idx]);
                 let mut tx = self.tx_states[validation_idx].lock();
                 // Rewinds can make cursor claims duplicate or stale; state under this lock decides
                 // whether a validation task still exists.
